@@ -1,7 +1,7 @@
 """Request streams per property (see DESIGN.md section 7). Each stream: name, lines, overflow modes, oracles."""
 from catalog import OPS, UNITS, TYPES, DATE_MIN, DATE_MAX, USECS_PER_DAY, TS_MIN, TS_MAX, YM_MAX, DT_MAX
 from gen import Pools, cross, hx, fbits, days, uniq
-from runner import oracle_no_panic, oracle_range
+from runner import oracle_consts, oracle_no_panic, oracle_range
 import textgen as tg
 
 BLK = 8192
@@ -201,6 +201,7 @@ def streams_for(pid, tier, rng):
         S.append(ops_stream("every value-returning op x pools", rng, pools,
                             [o for o in OPS if OPS[o][1]], cap, modes=("off", "on")))
         S.append(Stream("parse results", parse_lines(rng, pools, 3000 * scale), oracles=(oracle_no_panic, oracle_range)))
+        S.append(Stream("public range constants", ["K.consts"], oracles=(oracle_no_panic, oracle_consts)))
     elif pid == "C03":
         S.append(ops_stream("every op x pools", rng, pools, list(OPS), cap, modes=("off", "on")))
         n = 20000 * scale
